@@ -607,3 +607,15 @@ Definition validate (rs : raw_schema) : list rule_kind :=
   ++ flat_map (validate_type rs) (s_types rs)
   ++ cycle_reports KNonNullCycle (nn_detect rs)
   ++ cycle_reports KDefaultCycle (dv_detect rs).
+
+(* graphql.py graphql_impl: a request against a schema with validation errors returns exactly
+   those errors (data = None) and is neither validated nor executed *)
+Inductive response : Type :=
+| ErrorsOnly (ks : list rule_kind)
+| Proceeds.
+
+Definition request (rs : raw_schema) : response :=
+  match validate rs with
+  | [] => Proceeds
+  | ks => ErrorsOnly ks
+  end.
